@@ -392,6 +392,30 @@ def createArtifactS (L : Lister) (m : DocMode) (fs : FS) (jobURI : URI) (snap : 
     | none => ((Sched.step fs' sch').1, false)
     | some c => (write (.spJob snap.id) c (Sched.step fs' sch').1, true)
 
+/-- how the job snapshot reaches the artifact as `job.savepoint` (always the last step) -/
+inductive JobMode
+  | copyFile    -- the code as it is: the job checkpoint FILE is copied (the next publication's cleanup may have removed it: D65)
+  | fromBytes   -- proposed repair: the content that was written as the job checkpoint is written again from memory
+  deriving DecidableEq, Repr
+
+/-- what the source does now (regenerated: `Facts.savepointJobFromBytes`) -/
+def jobMode : JobMode := if Facts.savepointJobFromBytes = 1 then .fromBytes else .copyFile
+
+/-- the environment's moves on `u` taken out of a schedule / those moves alone -/
+def Sched.protect (u : URI) (sch : Sched) : Sched := sch.map (fun e => e.filter (fun w => w.uri != u))
+def Sched.movesOn (u : URI) (sch : Sched) : List WorkOp := sch.flatten.filter (fun w => w.uri == u)
+
+/-- `CreateSavepointArtifact` with the environment acting between its storage calls, for either way of producing
+`job.savepoint`: written from memory, the creation is not affected by what happens to the job checkpoint file (which
+still happens to the working storage) -/
+def createArtifactSJ (L : Lister) (m : DocMode) (jm : JobMode) (fs : FS) (jobURI : URI) (snap : JobSnap) (sch : Sched) :
+    FS × Bool :=
+  match jm with
+  | .copyFile => createArtifactS L m fs jobURI snap sch
+  | .fromBytes =>
+    ((applyWork (createArtifactS L m fs jobURI snap (Sched.protect jobURI sch)).1 (Sched.movesOn jobURI sch)),
+     (createArtifactS L m fs jobURI snap (Sched.protect jobURI sch)).2)
+
 /-- what a job does to the storage over its life, including restarts from savepoints: operators and the store
 write and delete working files, snapshots are published (with artifact creation for savepoints and removal of
 obsolete job snapshots), the job is started from a savepoint -/
